@@ -49,7 +49,8 @@ async function loadModules() {
 // jsim analogue of ssim's fresh process. Memoised state hidden in runtype instances is a history
 // channel that fresh *contexts* over the same instances cannot see.
 let PRISTINE_N = 0;
-const PRISTINE_CAP = Number(process.env.JSIM_PRISTINE_CAP || 6000);
+// module instances cannot be unloaded: a worker that has imported this many asks to be replaced
+const PRISTINE_CAP = Number(process.env.JSIM_PRISTINE_CAP || 3000);
 async function pristine(mod) {
   PRISTINE_N++;
   const m = await import(pathToFileURL(mod.file).href + "?pristine=" + process.pid + "_" + PRISTINE_N);
@@ -152,7 +153,7 @@ function genC16(mods, SPC, index) {
 
 async function execC16(mods, SPC, run) {
   const base = mods.find((m) => m.id === run.module);
-  const usePristine = !!run.pristine && base && PRISTINE_N < PRISTINE_CAP;
+  const usePristine = !!run.pristine && !!base;
   // history instance; reference instances are created per reference print in pristine mode
   const mod = usePristine ? await pristine(base) : base;
   const refInst = new Map();
@@ -695,6 +696,10 @@ async function workerMain(prop) {
           process.send({ start: m.index, run });
           result = await execC16(ctxs.mods, ctxs.SPC, run);
           if (result.violations.length || m.index < 3) result.run = run;
+          if (PRISTINE_N >= PRISTINE_CAP) {
+            process.send({ index: m.index, result, recycle: true });
+            return;
+          }
         } else {
           const run = m.run ?? genC13(m.index);
           process.send({ start: m.index, run });
